@@ -15,14 +15,16 @@ FLAGS = ['function', 'macro', 'cpp_class', 'cpp_attr', 'cpp_constructor', 'cpp_m
 DOC_LINES = ['', 'text here', '#hash', '[br] x', ']x', ':param a: b', ':keyword k: v', '..  dots', '  indented',
              '* item', 'héllo ✓', 'see [1]', 'a :param **kwargs: b', ' ', 'trailing  ', '# # double', 'x ] y',
              '\ttab', ':param x1: desc', ':type x1: int', '.. note:: n', '   deeper', 'Ünï 𝒳', '[', ']', '#', ': colon',
-             '@module not', 'NAME EXPECTFAIL', 'sep\u2028arated', 'nel\x85here', 'vt\x0bff\x0c']
-LEADERLESS_LINES = ['Plain text', 'another line', 'Zed :param a: b', 'x  spaced', 'é?', 'Resolves issue #12 here', 'See [1] and #2']
+             '@module not', 'NAME EXPECTFAIL', 'sep\u2028arated', 'nel\x85here', 'vt\x0bff\x0c',
+             # text that is not in a Unicode normal form, and characters whose case mappings change length or script: verbatim means verbatim
+             'cafe\u0301 d\u0323\u0307', '\u2126 ohm \u212b \u212a kelvin', 'compat \uf900 \ufb01 \u00b5', '\u0130stanbul \u0131 \u00df \u1e9e', 'A\u030a \u1100\u1161']
+LEADERLESS_LINES = ['Plain text', 'another line', 'Cafe\u0301 \u212a', '\u0130zmir road', 'Zed :param a: b', 'x  spaced', 'é?', 'Resolves issue #12 here', 'See [1] and #2']
 BARE = ['a', 'b', 'x1', '_p_', 'Foo', 'bar_baz', 'é', 'v-1', '${v}', 'a\\;b', 'NAMEX', 'xEXPECTFAIL', 'name',
         'expectfail', '@V@', '<T>', 'a;b', '$<X:y>', '[x]', 'a\\ b', '\\"q', 'a\\"', '1', '-D', 'x=y', 'ı', 'p/q.r',
         '\\(', 'a\\#b', '$ENV{H}', 'args', 'self', 'COMMAND', 'ON', 'OFF', '_x_y', 'a]', ']', 'a[[b]]',
-        'ls\u2028ps\u2029', 'n\x85l', 'v\x0bt', '**kwargs', '*args', 'kwargs', '_tf_value_', '__x__']
+        'ls\u2028ps\u2029', 'n\x85l', 'v\x0bt', '\u0130d', 'e\u0301', 'a\\\u212ab', '\u212a', '**kwargs', '*args', 'kwargs', '_tf_value_', '__x__']
 QUOTED = ['', 'q s', 'a\\"b', 'line\\\ncont', 'semi;colon', '#notcomment', '(paren)', 'é ✓', '$ENV{X}', ' ', 'x',
-          'two\nlines', '\\\\', 'NAME', '[[x]]', 'a\\tb', 'u\u2028v', 'f\x0cf', '"'.replace('"', '\\"'), ')', '(']
+          'two\nlines', '\\\\', '\u0130 \u0131', 'o\u0308 \u2126', 'NAME', '[[x]]', 'a\\tb', 'u\u2028v', 'f\x0cf', '"'.replace('"', '\\"'), ')', '(']
 BRACKET = [(0, 'br'), (0, ' b ] r'), (1, 'b ]] r'), (2, ' ]=] '), (0, ''), (1, 'new\nline'), (0, '# "x" ('), (1, '[[n]]'),
            (0, 'a;b'), (3, '')]
 LONG_BARE = ['https://example.org/' + '/'.join('component%02d' % i for i in range(9)) + '/file.tar.gz',
@@ -35,9 +37,9 @@ IDENTS = ['f', 'g', 'my_fn', 'Klass', 'T1', 'outer', 'inner', 'n2', 'Mod_x', '_u
 GENERIC_NAMES = ['message', 'add_library', 'include', 'list', 'find_package', 'if_not', 'target_sources', 'unset',
                  'cpp_end_classx', 'functionx', 'endfunctionx', 'return', 'SET_PROPERTY', 'process_docs']
 LINE_COMMENTS = [' plain', '', ' function(x)', ' #[[[ looks like doc', ']]', ' cpp_class(X)', '[=x', '[', '[==', ' "quote',
-                 ' \\bad escape', '#]]', ' endfunction()', '[x[', ' é ✓', '#[[', ' set(a b) #[[[', '\t', ' )', ' (', ' x\u2028y z', ' p\x0bq r', ' n\x85w ']
+                 ' \\bad escape', '#]]', ' endfunction()', '[x[', ' é ✓', '#[[', ' set(a b) #[[[', '\t', ' )', ' (', ' x\u2028y z', ' p\x0bq r', ' n\x85w ', ' \u0130smail \u00c7elik', ' e\u0301 \ufb03']
 BRACKET_COMMENTS = [(0, ' br '), (0, ' function(x)\n multi '), (1, ' #[[[ fake\n#]] '), (1, ' ]] '), (2, ' ]=] '), (0, ''),
-                    (0, ' "q ( '), (1, '[[x]]'), (0, '=[ x '), (0, ' é '), (0, ' #'), (1, ' cpp_end_class() ')]
+                    (0, ' "q ( '), (1, '[[x]]'), (0, '=[ x '), (0, ' é '), (0, ' #'), (1, ' cpp_end_class() '), (0, ' \u0130 '), (1, ' \u212b\u0301 ')]
 
 
 def case_mix(g, s, level):
@@ -319,6 +321,9 @@ class Gen:
                 for j in range(1, len(toks)):
                     if g.random() < 0.6: toks[j] = ['b', g.choice(LONG_BARE)] if g.random() < 0.5 else ['q', g.choice(LONG_QUOTED)]
                 if len(toks) == 1 or g.random() < 0.3: toks += [['b', g.choice(LONG_BARE)] for _ in range(g.randint(1, 12))]
+            if len(toks) >= 2 and g.random() < 0.1:      # the cache form of set(): to CMinx the keywords are values like any other
+                toks += [self.tok('CACHE'), self.tok(g.choice(['STRING', 'BOOL', 'PATH', 'INTERNAL'])), ['q', g.choice(['where it lives', '', 'help: text'])]] + ([self.tok('FORCE')] if g.random() < 0.5 else [])
+            elif len(toks) >= 2 and g.random() < 0.05: toks.append(self.tok(g.choice(['PARENT_SCOPE', 'FORCE', 'CACHE'])))
             if mal and g.random() < 0.3: toks = []
             return dict(k='cmd', doc=d, call=self.call('set', toks, ind, cfirst, after_doc=d is not None))
         if k == 'option':
